@@ -31,20 +31,24 @@ def one(d):
             print(d, "patch does not apply", o)
             return
         t0 = time.time()
-        rc, o = sh(["go", "test", "-mod=mod", "-vet=off", "-count=1", "-timeout", "25m", "./..."], wt)
+        # a private network namespace: the tests bind fixed loopback ports and collide with whatever else runs here
+        rc, o = sh(["unshare", "-rn", "sh", "-c", "ip link set lo up; exec go test -mod=mod -vet=off -count=1 -timeout 25m ./..."], wt)
         failed = sorted(set(re.findall(r"^--- FAIL: (\w+)", o, re.M)) - OFFLINE)
         still = []
         for t in failed:
-            for _ in range(2):
-                rc2, o2 = sh(["go", "test", "-mod=mod", "-vet=off", "-count=1", "-timeout", "10m", "-run", "^%s$" % t, "./..."], wt)
-                if not re.search(r"^--- FAIL: ", o2, re.M) and "FAIL\t" not in o2.replace("FAIL\tgithub.com/hashicorp/serf/cmd/serf/command/agent", "") :
+            for k in range(3):
+                if k == 0:
+                    rc2, o2 = sh(["unshare", "-rn", "sh", "-c", "ip link set lo up; exec go test -mod=mod -vet=off -count=1 -timeout 10m -run '^%s$' ./..." % t], wt)
+                else:   # outside the namespace (multicast tests need the host's interfaces)
+                    rc2, o2 = sh(["go", "test", "-mod=mod", "-vet=off", "-count=1", "-timeout", "10m", "-run", "^%s$" % t, "./..."], wt)
+                if not re.search(r"^--- FAIL: ", o2, re.M) and "[build failed]" not in o2:
                     break
             else:
                 still.append(t)
         build_failed = "[build failed]" in o or "[setup failed]" in o
         mp = os.path.join(d, "meta.json")
         meta = json.load(open(mp))
-        meta["suite"] = {"cmd": "go test -mod=mod -vet=off -count=1 -timeout 25m ./...", "failed_first_run": failed,
+        meta["suite"] = {"cmd": "go test -mod=mod -vet=off -count=1 -timeout 25m ./... (in a private network namespace)", "failed_first_run": failed,
                          "still_failing_when_rerun_alone": still, "build_failed": build_failed, "wall_s": round(time.time() - t0)}
         json.dump(meta, open(mp, "w"), indent=1)
         print(os.path.basename(d), "suite: first-run failures", failed, "still failing alone", still, "build_failed", build_failed)
@@ -53,5 +57,15 @@ def one(d):
 
 
 if __name__ == "__main__":
-    for d in sys.argv[1:]:
-        one(d)
+    args = sys.argv[1:]
+    j = 1
+    if args and args[0].startswith("-j"):
+        j = int(args[0][2:])
+        args = args[1:]
+    if j > 1:
+        import multiprocessing
+        with multiprocessing.Pool(j) as pool:
+            pool.map(one, args)
+    else:
+        for d in args:
+            one(d)
